@@ -234,7 +234,7 @@ FAULT_KINDS = {
     "recv": ["timeout", "reset", "eof", "eintr"],
     "close": ["oserror", "runtime"],
 }
-REPLY_FAULTS = ["error", "client_error", "server_error", "garbage", "badvalue", "foreign"]
+REPLY_FAULTS = ["error", "client_error", "server_error", "garbage", "badvalue", "foreign", "two_line_error"]
 INTERRUPT_KINDS = ["kbd", "sysexit", "gevent"]
 
 
